@@ -162,6 +162,9 @@ fn problems() -> Vec<Prob> {
 // ----------------------------------------------------------------------
 pub struct RoundTrip {
     pub pairs: bool, // two settings fields at a time
+    /// `settings` is a public field of the solver: flip equilibrate_enable after construction, before saving
+    /// (the data were scaled -- or not -- according to the flag at construction time)
+    pub toggle_after_build: bool,
 }
 impl RoundTrip {
     fn nvariants(&self) -> u64 {
@@ -204,7 +207,7 @@ fn settings_equal(a: &DefaultSettings<f64>, b: &DefaultSettings<f64>) -> bool {
 
 impl Space for RoundTrip {
     fn name(&self) -> String {
-        format!("roundtrip-{}", if self.pairs { "settings-pairs" } else { "settings-singles" })
+        format!("roundtrip-{}{}", if self.pairs { "settings-pairs" } else { "settings-singles" }, if self.toggle_after_build { "-equilibrate-flag-flipped-after-build" } else { "" })
     }
     fn size(&self) -> u64 {
         problems().len() as u64 * 2 * 2 * self.nvariants()
@@ -272,18 +275,23 @@ impl Space for RoundTrip {
             }
         }
         let mut solver = guarded(|| p.build(st.clone())).map_err(|e| Violation::new("machinery-build-panic", e))?;
+        let equil_at_build = st.equilibrate_enable;
+        if self.toggle_after_build {
+            solver.settings.equilibrate_enable = !equil_at_build;
+            st.equilibrate_enable = !equil_at_build;
+        }
         let bytes = save_bytes(&solver).map_err(|e| Violation::new("save-failed", e))?;
         ctx.transitions += 2;
         // ---- file contents vs. the user's originals
         let file: Value = serde_json::from_slice(&bytes).map_err(|e| Violation::new("saved-file-not-json", format!("{}", e)))?;
         if !reduced {
-            let tol = if st.equilibrate_enable { 4.0 * f64::EPSILON } else { 0.0 };
+            let tol = if equil_at_build { 4.0 * f64::EPSILON } else { 0.0 };
             let cmp = |got: &Value, want: &[f64], what: &str| -> CaseResult {
                 let g: Vec<f64> = got.as_array().map(|a| a.iter().map(|x| x.as_f64().unwrap_or(f64::NAN)).collect()).unwrap_or_default();
                 ensure!(g.len() == want.len(), "file-length", "{}: {} vs {}", what, g.len(), want.len());
                 for k in 0..g.len() {
                     let ok = g[k] == want[k] || (g[k] - want[k]).abs() <= tol * f64::max(g[k].abs(), want[k].abs());
-                    ensure!(ok, "file-values-differ-from-original", "{}[{}] saved {:e} original {:e} (equilibrate {})", what, k, g[k], want[k], st.equilibrate_enable);
+                    ensure!(ok, "file-values-differ-from-original", "{}[{}] saved {:e} original {:e} (equilibrated at build {})", what, k, g[k], want[k], equil_at_build);
                 }
                 Ok(())
             };
@@ -341,11 +349,41 @@ impl Space for RoundTrip {
             ctx.outcome("time-limited");
             return Ok(());
         }
+        // A right-hand side of 1e20 that is *kept* (presolve switched off) makes the instance so ill-conditioned that
+        // the one-ulp data differences of a scale/unscale round trip can flip an inconclusive status into Solved
+        // and back; there only contradictory definite verdicts count. (With equilibration off the round trip is
+        // exact and everything is compared bit for bit below.)
+        if self.toggle_after_build {
+            // the two solvers work with different scalings (one equilibrated at construction, the other not): what
+            // is compared is the file (above), the settings, and that definite verdicts agree
+            let class = |s: SolverStatus| match s {
+                SolverStatus::Solved | SolverStatus::AlmostSolved => 1,
+                SolverStatus::PrimalInfeasible | SolverStatus::AlmostPrimalInfeasible => 2,
+                SolverStatus::DualInfeasible | SolverStatus::AlmostDualInfeasible => 3,
+                _ => 0,
+            };
+            let (ca, cb) = (class(a.status), class(b.status));
+            ensure!(ca == 0 || cb == 0 || ca == cb || (ca > 1 && cb > 1), "verdict-differs-after-round-trip", "original {:?} loaded {:?}", a.status, b.status);
+            if ca == 1 && cb == 1 {
+                let tol = 1e-4 * f64::max(1.0, a.obj_val.abs());
+                ensure!((a.obj_val - b.obj_val).abs() <= tol, "objective-differs-after-round-trip", "{} vs {}", a.obj_val, b.obj_val);
+            }
+            ctx.nontrivial += 1;
+            ctx.outcome("flag-flipped-roundtrip");
+            return Ok(());
+        }
+        let kept_infinite_row = !reduced && p.b.iter().any(|v| v.abs() >= 1e15);
+        if kept_infinite_row && (st.equilibrate_enable || equil_at_build) && a.status != b.status {
+            let definite = |s: SolverStatus| matches!(s, SolverStatus::Solved | SolverStatus::PrimalInfeasible | SolverStatus::DualInfeasible);
+            ensure!(!(definite(a.status) && definite(b.status)), "verdict-differs-after-round-trip", "original {:?} loaded {:?}", a.status, b.status);
+            ctx.outcome("ill-conditioned-kept-infinite-row(inconclusive status differs)");
+            return Ok(());
+        }
         ensure!(a.status == b.status, "verdict-differs-after-round-trip", "original {:?} loaded {:?}", a.status, b.status);
         if a.status == SolverStatus::Solved {
             let tol = 1e-6 * f64::max(1.0, a.obj_val.abs());
             ensure!((a.obj_val - b.obj_val).abs() <= tol, "objective-differs-after-round-trip", "{} vs {}", a.obj_val, b.obj_val);
-            if !st.equilibrate_enable && !reduced {
+            if !st.equilibrate_enable && !equil_at_build && !reduced {
                 ensure!(a.obj_val.to_bits() == b.obj_val.to_bits() && a.iterations == b.iterations, "exact-round-trip-not-exact", "{} vs {}", a.obj_val, b.obj_val);
             }
         }
@@ -573,9 +611,9 @@ pub const ASSUMPTIONS: &[&str] = &[
 
 pub fn spaces(tier: &str, _seed: u64) -> Vec<Box<dyn Space>> {
     let thorough = tier == "thorough";
-    let mut v: Vec<Box<dyn Space>> = vec![Box::new(RoundTrip { pairs: false }), Box::new(ConeParams)];
+    let mut v: Vec<Box<dyn Space>> = vec![Box::new(RoundTrip { pairs: false, toggle_after_build: false }), Box::new(RoundTrip { pairs: false, toggle_after_build: true }), Box::new(ConeParams)];
     if thorough {
-        v.push(Box::new(RoundTrip { pairs: true }));
+        v.push(Box::new(RoundTrip { pairs: true, toggle_after_build: false }));
     }
     for w in 0..(if thorough { 4 } else { 2 }) {
         v.push(Box::new(Faults::new(w)));
